@@ -25,8 +25,18 @@ def refvalue(rng):
             return v
 
 
-def call_select(etl, src, form, field, pred, complement, missing):
+FLUENT = {'eq': 'eq', 'ne': 'ne', 'lt': 'lt', 'le': 'le', 'gt': 'gt', 'ge': 'ge', 'isnone': 'none', 'isnotnone': 'notnone',
+          'true': 'true', 'false': 'false', 'in': 'selectin', 'notin': 'selectnotin', 'contains': 'selectcontains',
+          'rangeopenleft': 'selectrangeopenleft', 'rangeopenright': 'selectrangeopenright', 'rangeopen': 'selectrangeopen',
+          'rangeclosed': 'selectrangeclosed'}
+
+
+def call_select(etl, src, form, field, pred, complement, missing, fluent=False):
     tag = pred[0]
+    if fluent and form == 'field' and tag in FLUENT:
+        # the same selector reached as a method of a table (short aliases included)
+        meth = getattr(etl.wrap(src), FLUENT[tag])
+        return meth(field, *pred[1:], complement=complement)
     if form == 'row':
         if tag == 'len':
             return etl.rowlenselect(src, pred[1], complement=complement)
@@ -136,6 +146,8 @@ class C13(Prop):
                 # the named selectors take no `missing` argument (None is used); select() itself does
                 yield Case('select', ('field', rng.choice(['k', 'k', 0, 'v']), p, compl,
                                       missing if p[0] == 'user' else None, t))
+                if p[0] in FLUENT:
+                    yield Case('select', ('field', rng.choice(['k', 'k', 0, 'v']), p, not compl, None, t), {'fluent': True})
             yield Case('select', ('field', 'a', ('contains', rng.choice(['x', 'y', ''])), compl, None,
                                   tuple(r for r in t if len(r) < 2 or r[1] is not None)))
             yield Case('select', ('field', 'v', ('user', 0), compl, missing,
@@ -193,7 +205,8 @@ class C13(Prop):
         try:
             if case.op == 'select':
                 form, field, pred, compl, missing, t = case.arg
-                return obs_rows(call_select(etl, [tuple(r) for r in t], form, field, pred, compl, missing))
+                return obs_rows(call_select(etl, [tuple(r) for r in t], form, field, pred, compl, missing,
+                                            fluent=bool(case.meta.get('fluent'))))
             if case.op == 'rowslice':
                 args, t = case.arg
                 return obs_rows(etl.rowslice([tuple(r) for r in t], *args))
@@ -326,6 +339,10 @@ class C13(Prop):
 
     def nontrivial(self, case):
         return len(case.arg[-1]) >= 3
+
+    def static_checks(self):
+        from .. import catalogue
+        return [catalogue.method_alias_check()]
 
 
 PROP = C13
